@@ -215,7 +215,11 @@ def replay(pyhf, backend, precision, chunk, seed):
                     o = f"{type(e).__name__}"
                     out["edge"][o] = out["edge"].get(o, 0) + 1
                     return
-                add(f"{entry} (automatic scan) failed: {type(e).__name__}: {e}", ctx, tags + ["evalfail"])
+                ltags, level_seen = level_tags(level, list(P.seen), "toms748_scan")
+                what = f"{entry}(scan=None, level={level:g}) failed: {type(e).__name__}: {e}"
+                if ltags:
+                    what += f" -- the scan received level={level_seen:g}, the caller passed {level:g}"
+                add(what, dict(ctx, level_received_by_scan=level_seen), tags + ltags + ["evalfail"])
                 return
             seen = list(P.seen)
         out["toms_calls"] += 1
